@@ -52,6 +52,7 @@ func runC20(c *Ctx) {
 	c20R4(c, p, acc)
 	c20Read(c, p, acc, op)
 	c20R6(c, p)
+	c20R7(c, p)
 }
 
 // ---------------------------------------------------------------- helpers
